@@ -138,7 +138,9 @@ theorem fromBytes_rowsLen {d : List Nat} {b : BitFont} (h : fromBytes d = .ok b)
   unfold fromBytes at h
   split at h
   · split at h
-    · obtain ⟨_, hh, data, hg, he⟩ := loadPsf1_shape h; exact rowsLen_of_glyphs hg he
+    · split at h
+      · cases h
+      · obtain ⟨_, hh, data, hg, he⟩ := loadPsf1_shape h; exact rowsLen_of_glyphs hg he
     · split at h
       · obtain ⟨hh, data, hg, he⟩ := loadPsf2_shape h; exact rowsLen_of_glyphs hg he
       · obtain ⟨_, hh, data, hg, he⟩ := loadPlain_shape h; exact rowsLen_of_glyphs hg he
@@ -152,7 +154,9 @@ theorem fromBytes_width8 {d : List Nat} {b : BitFont} (h : fromBytes d = .ok b)
   split at h
   · rename_i a0 a1 a2 a3 rest
     split at h
-    · obtain ⟨hw, _⟩ := loadPsf1_shape h; show b.w.toNat = 8; rw [hw]; rfl
+    · split at h
+      · cases h
+      · obtain ⟨hw, _⟩ := loadPsf1_shape h; show b.w.toNat = 8; rw [hw]; rfl
     · rename_i hn1
       split at h
       · rename_i h2
